@@ -650,3 +650,80 @@ package astisub
 //@   loop 1: invariant styles != nil && formatMap != nil
 //@   loop 2: invariant forall m int :: 0 <= m && m < len(styleNames) ==> has(styles, styleNames[m]) && styles[styleNames[m]] != nil
 //@ end
+
+// ---- STL ----
+
+//@ func ReadFromSTL(i io.Reader, opts STLOptions) (o *Subtitles, err error)
+//@   prop C08 C18
+//@   requires i != nil
+//@ end
+
+//@ func parseGSIBlock(b []byte) (g *gsiBlock, err error)
+//@   prop C08
+//@   requires len(b) >= 1024
+//@   ensures err == nil ==> g != nil && g.framerate > 0
+//@ end
+
+//@ func parseDurationSTL(i string, framerate int) (d time.Duration, err error)
+//@   prop C08
+//@   requires framerate > 0
+//@ end
+
+//@ func parseTTIBlock(p []byte, framerate int) *ttiBlock
+//@   prop C08
+//@   requires len(p) >= 128 && framerate > 0
+//@   ensures result != nil
+//@ end
+
+//@ func newGSIBlock(s Subtitles) (g *gsiBlock)
+//@   prop C08
+//@   requires nonNil(s) && len(s.Items) > 0
+//@   ensures g != nil
+//@ end
+
+//@ func newTTIBlock(i *Item, idx int) (t *ttiBlock)
+//@   prop C08
+//@   requires i != nil
+//@   ensures t != nil
+//@ end
+
+//@ func (t *ttiBlock) bytes(g *gsiBlock) (o []byte)
+//@   prop C08
+//@   requires g != nil
+//@ end
+
+//@ func (s *stlStyler) hasChanged(sa *StyleAttributes) bool
+//@   prop C08
+//@   requires sa != nil
+//@ end
+
+//@ func (s *stlStyler) update(sa *StyleAttributes)
+//@   prop C08
+//@   requires sa != nil
+//@ end
+
+//@ func (s *stlStyler) propagateStyleAttributes(sa *StyleAttributes)
+//@   prop C08
+//@   requires sa != nil
+//@ end
+
+//@ func parseOpenSubtitleRow(i *Item, d decoder, fs func() styler, row []byte) error
+//@   prop C08
+//@   requires i != nil && d != nil
+//@   loop 1: invariant li.InlineStyle != nil
+//@ end
+
+//@ func appendOpenSubtitleLineItem(l *Line, li LineItem, s styler)
+//@   prop C08
+//@   requires l != nil
+//@ end
+
+//@ func newSTLCharacterHandler(characterCodeTable uint16) (*stlCharacterHandler, error)
+//@   prop C08
+//@   ensures result1 == nil ==> result0 != nil
+//@ end
+
+//@ func (s Subtitles) WriteToSTL(o io.Writer) (err error)
+//@   prop C08 C18 C19
+//@   requires writable(s) && o != nil
+//@ end
